@@ -53,7 +53,10 @@ def sum_form(v):
 
 
 def show(v, limit=160):
-    s = repr(v)
+    if isinstance(v, DictV):
+        s = '{%s}' % ', '.join('%r: %s' % (v.okey(k), show(x, limit)) for k, x in v.d.items())
+    else:
+        s = repr(v)
     return s if len(s) <= limit else s[:limit] + '...'
 
 
